@@ -67,21 +67,39 @@ func primitive3(rng *rand.Rand, kind int) *subject3 {
 		a := randAxis3(rng)
 		l := sc * (0.2 + 2*rng.Float64())
 		r := sc * (0.2 + rng.Float64())
+		switch rng.Intn(10) {
+		case 0: // needle
+			r = l * logUniform(rng, -1.7, -1)
+		case 1: // disc / nearly a sphere
+			l = r * logUniform(rng, -1.7, -1)
+		}
 		p1, p2 := ctr.Sub(a.Scale(l/2)), ctr.Add(a.Scale(l/2))
+		axes := []V3{p2.Sub(p1), a}
 		if kind == 2 {
-			return &subject3{api: "model3d.Capsule", far: 300,
+			return &subject3{api: "model3d.Capsule", far: 300, axes: axes,
 				coll: &model3d.Capsule{P1: p1.C3(), P2: p2.C3(), Radius: r},
 				ref:  &ref.Capsule{P1: p1, P2: p2, R: r}}
 		}
-		return &subject3{api: "model3d.Cylinder", far: 300,
+		return &subject3{api: "model3d.Cylinder", far: 300, axes: axes,
 			coll: &model3d.Cylinder{P1: p1.C3(), P2: p2.C3(), Radius: r},
 			ref:  &ref.Cylinder{P1: p1, P2: p2, R: r}}
 	case 4:
 		a := randAxis3(rng)
 		h := sc * (0.3 + 2*rng.Float64())
 		r := sc * (0.2 + rng.Float64())
+		switch rng.Intn(10) {
+		case 0: // sharp
+			r = h * logUniform(rng, -1.5, -0.8)
+		case 1: // flat
+			h = r * logUniform(rng, -1.5, -0.8)
+		case 2: // radius equals height
+			r = h
+		}
 		base, tip := ctr.Sub(a.Scale(h/2)), ctr.Add(a.Scale(h/2))
-		return &subject3{api: "model3d.Cone", far: 50,
+		u, _ := ref.OrthoFrame(a)
+		// the axis and one generator line (rim point to tip)
+		axes := []V3{tip.Sub(base), tip.Sub(base.Add(u.Scale(r)))}
+		return &subject3{api: "model3d.Cone", far: 50, axes: axes,
 			coll: &model3d.Cone{Tip: tip.C3(), Base: base.C3(), Radius: r},
 			ref:  &ref.Cone{Tip: tip, Base: base, R: r}}
 	default:
@@ -92,7 +110,8 @@ func primitive3(rng *rand.Rand, kind int) *subject3 {
 		if rng.Intn(3) == 0 { // the library normalises the axis itself
 			la = a.Scale(0.25 + 3*rng.Float64())
 		}
-		return &subject3{api: "model3d.Torus", far: 30,
+		u, _ := ref.OrthoFrame(a)
+		return &subject3{api: "model3d.Torus", far: 30, axes: []V3{a, u},
 			coll: &model3d.Torus{Center: ctr.C3(), Axis: la.C3(), OuterRadius: R, InnerRadius: r},
 			ref:  &ref.Torus{C: ctr, A: a, R: R, R2: r}}
 	}
@@ -364,10 +383,25 @@ func joinedSubject3(rng *rand.Rand) *subject3 {
 		colls = append(colls, p.coll)
 		u.Parts = append(u.Parts, p.ref)
 	}
+	if rng.Intn(4) == 0 { // a triangle collider (joinedMultiCollider) as one member
+		m := randomRawMesh(rng).placed(rng)
+		if m.certify() {
+			ms := meshSubject3(rng, m, rng.Intn(3))
+			colls = append(colls, ms.coll)
+			u.Parts = append(u.Parts, ms.ref)
+			n++
+		}
+	}
 	var coll model3d.Collider
-	if nested && n >= 3 {
+	switch {
+	case nested && n >= 3:
 		coll = model3d.NewJoinedCollider([]model3d.Collider{model3d.NewJoinedCollider(colls[:2]), model3d.NewJoinedCollider(colls[2:])})
-	} else {
+	case rng.Intn(4) == 0: // same bounds as the parent: NewJoinedCollider flattens it
+		coll = model3d.NewJoinedCollider([]model3d.Collider{model3d.NewJoinedCollider(colls)})
+	case rng.Intn(6) == 0: // a single member
+		coll = model3d.NewJoinedCollider(colls[:1])
+		u.Parts = u.Parts[:1]
+	default:
 		coll = model3d.NewJoinedCollider(colls)
 	}
 	return &subject3{api: "model3d.JoinedCollider", coll: coll, ref: u, far: 300}
